@@ -16,6 +16,7 @@ import (
 	"github.com/truora/minidyn/core"
 	"github.com/truora/minidyn/interpreter"
 	coretypes "github.com/truora/minidyn/types"
+	"github.com/truora/minidyn/verifhook"
 )
 
 const (
@@ -159,6 +160,8 @@ func (fd *Client) CreateTable(ctx context.Context, input *dynamodb.CreateTableIn
 		return nil, mapKnownError(err)
 	}
 
+	verifhook.At("client.createTable.beforeRegister")
+
 	fd.tables[tableName] = newTable
 
 	return &dynamodb.CreateTableOutput{
@@ -179,6 +182,8 @@ func (fd *Client) DeleteTable(ctx context.Context, input *dynamodb.DeleteTableIn
 	}
 
 	desc := mapTypesToDynamoTableDescription(table.Description(tableName))
+
+	verifhook.At("client.deleteTable.beforeRemove")
 
 	delete(fd.tables, tableName)
 
@@ -504,6 +509,8 @@ func (fd *Client) BatchWriteItem(ctx context.Context, input *dynamodb.BatchWrite
 
 	for table, reqs := range input.RequestItems {
 		for _, req := range reqs {
+			verifhook.At("client.batchWrite.nextRequest")
+
 			err := executeBatchWriteRequest(ctx, fd, aws.String(table), req)
 
 			err = handleBatchWriteRequestError(table, req, unprocessed, err)
